@@ -19,7 +19,9 @@ observable state with the Coq model `cnt_case` (evaluated with vm_compute):
             content of `state` and of `_initial_state`, `_initial_state is caller`, `state is caller`, the caller's
             object content, the bond-dimension record; before the first and after the last command: operator_result by
             key / position (incl. the positions len(ops), -1, len(ops)+1, -(len(ops)+2) and an unknown key) with and
-            without realise (values and dtype realness), times() (values, float64), operator_results(realise=True).
+            without realise (values and dtype realness), times() (values, float64), times(offset) for the offsets
+            0.5, -1.25, 3 (an int), -0.1, 1e-3 positionally and by keyword (= the times cells of the model + offset, exactly,
+            float64; raises exactly where times() raises), operator_results(realise=True).
 """
 from __future__ import annotations
 
@@ -38,6 +40,7 @@ PAIRS = [(0.05, 1.0), (1.0, 1.0), (0.5, 0.25), (1.05, 0.5), (1.25, 0.25), (0.7, 
 KS = [1, 2, 3, 5, "inf", "n", "n+1", 0]
 CONTS = ["single", "list0", "list1", "list3", "dict1", "dict3"]
 HISTS = ["r", "rsr", "rr", "rwsr"]
+OFFSETS = [0.5, -1.25, 3, -0.1, 1e-3]     # optional argument of times(): the recorded times shifted by the offset
 DKEYS = [3, 0, 2]          # dictionary keys (numbers in the model, "k<number>" in the code): insertion order != sorted order
 
 
@@ -166,7 +169,17 @@ def _access(ev, case):
         r = _arr(ev.operator_results(True))
     except AssertionError as e:
         r = type(e).__name__
-    return [out, t, r]
+    offs = []
+    for off in OFFSETS:
+        try:
+            offs.append(_arr(ev.times(off)))
+        except AssertionError as e:
+            offs.append(type(e).__name__)
+    try:
+        offs.append(_arr(ev.times(offset=OFFSETS[1])))      # by keyword
+    except AssertionError as e:
+        offs.append(type(e).__name__)
+    return [out, t, r, offs]
 
 
 def impl(case):
@@ -303,7 +316,8 @@ def _unsome(v):
 
 def _access_cmp(case, got, mo, where, plain_tab=None):
     m_ids, m_times, m_all = mo
-    g_ids, g_times, g_all = got
+    g_ids, g_times, g_all = got[:3]
+    g_offs = got[3] if len(got) > 3 else []
     for (kind, v), gp, mp in zip(queries(case), g_ids, m_ids):
         plain = _unsome(mp[0])
         for rl, g, m in ((False, gp[0], mp[0]), (True, gp[1], mp[1])):
@@ -325,6 +339,15 @@ def _access_cmp(case, got, mo, where, plain_tab=None):
         return f"{where}: times(): code {g_times}, model {mt}"
     if mt is not None and (g_times["dtype"] != "float64" or not _rows_ok(case, mt, g_times)):
         return f"{where}: times(): code {g_times}, model cells {mt}"
+    # times(offset): the model's times() cells shifted by the offset (the same single float addition as the code)
+    for off, g in zip(OFFSETS + [OFFSETS[1]], g_offs):
+        if (mt is None) != isinstance(g, str):
+            return f"{where}: times({off}): code {g}, model {mt}"
+        if mt is None:
+            continue
+        want = [(0.0 if int(cell[0]) == 0 else int(cell[1]) * case["dt"]) + off for cell in mt]
+        if g["dtype"] != "float64" or g["shape"] != [len(want)] or g["re"] != want or any(x != 0.0 for x in g["im"]):
+            return f"{where}: times({off}): code {g['re']} ({g['dtype']}), model times + offset {want}"
     ma = _unsome(m_all)
     if (ma is None) != isinstance(g_all, str):
         return f"{where}: operator_results(True): code {g_all}, model {ma}"
@@ -417,6 +440,15 @@ def oracle(case, ob):
                 first = (k, res)
             elif case["hist"] == "rsr" and (first[0] != k or not _same(first[1], res, case)):
                 return "run; reset; run does not reproduce the first record"
+    # times(offset): the stored times shifted by the offset
+    for when in ("before", "after"):
+        acc = ob[when]
+        if len(acc) > 3 and not isinstance(acc[1], str):
+            for off, g in zip(OFFSETS + [OFFSETS[1]], acc[3]):
+                want = [t + off for t in acc[1]["re"]]
+                if isinstance(g, str) or g["re"] != want:
+                    return (f"times({off}) {when} the history {[c[0] for c in hist]} returns {g if isinstance(g, str) else g['re']}, "
+                            f"the stored times {acc[1]['re']} shifted by {off} are {want}")
     return None
 
 
